@@ -58,6 +58,9 @@ impl Reorg {
       panic!("set index durability to `Durability::Immediate` to test reorg handling");
     }
 
+    #[cfg(feature = "verif")]
+    crate::verif::points::point("reorg:pre-restore", height);
+
     let mut wtx = index.begin_write()?;
 
     let oldest_savepoint =
@@ -66,7 +69,11 @@ impl Reorg {
     wtx.restore_savepoint(&oldest_savepoint)?;
 
     Index::increment_statistic(&wtx, Statistic::Commits, 1)?;
+    #[cfg(feature = "verif")]
+    crate::verif::points::point("reorg:pre-commit", height);
     wtx.commit()?;
+    #[cfg(feature = "verif")]
+    crate::verif::points::point("reorg:post-commit", height);
 
     log::info!(
       "successfully rolled back database to height {}",
@@ -123,10 +130,14 @@ impl Reorg {
           index.settings.max_savepoints()
         );
         wtx.delete_persistent_savepoint(savepoints.into_iter().min().unwrap())?;
+        #[cfg(feature = "verif")]
+        crate::verif::points::point("savepoint:deleted-uncommitted", height);
       }
 
       Index::increment_statistic(&wtx, Statistic::Commits, 1)?;
       wtx.commit()?;
+      #[cfg(feature = "verif")]
+      crate::verif::points::point("savepoint:post-delete-commit", height);
 
       let wtx = index.begin_write()?;
 
@@ -139,7 +150,11 @@ impl Reorg {
         .insert(&Statistic::LastSavepointHeight.key(), &height.into())?;
 
       Index::increment_statistic(&wtx, Statistic::Commits, 1)?;
+      #[cfg(feature = "verif")]
+      crate::verif::points::point("savepoint:created-uncommitted", height);
       wtx.commit()?;
+      #[cfg(feature = "verif")]
+      crate::verif::points::point("savepoint:post-create-commit", height);
     }
 
     Ok(())
